@@ -5,11 +5,19 @@ use crate::refmodel::isa;
 use serde_json::Value;
 
 pub mod c01;
+pub mod c03;
+pub mod c04;
+pub mod c12;
+pub mod c13;
 
 pub fn run(ctx: &Ctx) -> i32 {
     fw::start_watchdog(&ctx.prop, match ctx.tier { fw::Tier::Quick => 1500, fw::Tier::Thorough => 6 * 3600 });
     match ctx.prop.as_str() {
         "C01" => c01::run(ctx),
+        "C03" => c03::run(ctx),
+        "C04" => c04::run(ctx),
+        "C12" => c12::run(ctx),
+        "C13" => c13::run(ctx),
         other => {
             eprintln!("unknown property {}", other);
             2
@@ -22,6 +30,10 @@ pub fn replay(ctx: &Ctx, v: &Value) -> i32 {
     let case = &v["case"];
     match ctx.prop.as_str() {
         "C01" => c01::replay(ctx, case),
+        "C03" => c03::replay(ctx, case),
+        "C04" => c04::replay(ctx, case),
+        "C12" => c12::replay(ctx, case),
+        "C13" => c13::replay(ctx, case),
         other => {
             eprintln!("unknown property {}", other);
             2
